@@ -6,6 +6,7 @@ import Driver.Interp
 import Driver.Disp
 import Driver.TS
 import Driver.Wind
+import Driver.Est
 
 open Osu.Driver
 
@@ -24,6 +25,7 @@ def handle (st : DState) (line : String) : DState × String :=
   | "disp" :: rest => (st, Disp.step rest)
   | "ts" :: rest => (st, TS.step rest)
   | "wind" :: rest => (st, Wind.step rest)
+  | "est" :: rest => (st, Est.step rest)
   | _ => (st, "bad-op")
 
 partial def loop (h : IO.FS.Stream) (out : IO.FS.Stream) (st : DState) : IO Unit := do
